@@ -868,7 +868,7 @@ def fam_capsweep(rnd, i):
     """One history, several Watchers that differ only in their buffer size, nobody receiving until the end (C14): entry names
     of 240-255 bytes (one kernel record is then larger than 16 record headers), a move whose Rename finds each buffer
     exactly full for one of the sizes, the consumer away for more than a second."""
-    caps = [0, 1, 2] + rnd.sample([4, 8, 14, 16, 64, 1024], 2)
+    caps = [0, 1, 2] + rnd.sample([4, 8, 14, 16, 64, 1024], 1)
     ws = ["w%d" % (k + 1) for k in range(len(caps))]
     steps = [fs("mkdir", ("d1",)), fs("create", ("d1", "a"))]
     for w, c in zip(ws, caps):
